@@ -27,7 +27,7 @@ PROP = "C08"
 KF_STALE = "stale-id-after-bridging-capture"
 KF_SNAPREUSE = "snapshot-forgets-closed-tcp-4tuple"
 KF_QUEUED = "queued-payload-flushed-but-not-written"
-REGIMES = ["plain", "dup", "reorder", "udp-only", "udp-collide", "udp-reuse", "udp-reuse", "tcp-only", "tcp-reuse-late", "mixed", "tiecut"]
+REGIMES = ["plain", "dup", "reorder", "udp-only", "udp-collide", "udp-reuse", "udp-reuse", "tcp-only", "tcp-reuse-late", "mixed", "tiecut", "udp-bucket", "udp-bucket"]
 
 
 def all_partitions(nf):
